@@ -142,6 +142,7 @@ def gen_case(rng, tier="quick"):
         H[1][0] = dec(rng, -1.5, 1.5, 2)
         H[2][0] = dec(rng, -1.5, 1.5, 2)
         H[2][1] = dec(rng, -1.5, 1.5, 2)
+        common.sparse_tilt(rng, H)
     ppp = rng.choice([[1, 1, 1], [1, 1, 1], [1, 1, 1], [1, 1, 0], [0, 1, 1], [0, 0, 0]])
     T = rng.choice([1, 2, 2, 3])
     base = gen_positions(rng, n, H)
